@@ -149,7 +149,9 @@ interface *
     description ~
     mtu
 """, [S(["interface Vlan10"], [S(["ip a1", "ip a2"]), S(["description x", "description y"]), S(["mtu 1", "mtu 2"])]),
-      S(["interface Eth1"], [S(["description x"]), S(["mtu 1", "mtu 2"])])])
+      S(["interface Eth1"], [S(["description x"])])],
+    [S(["interface Vlan10"], [S(["ip a1", "ip a2"]), S(["description x", "description y"]), S(["mtu 1", "mtu 2"])]),
+     S(["interface Eth1"], [S(["description x"]), S(["mtu 1", "mtu 2"])])])
 
 BLOCK_VENDORS = ["huawei", "cisco", "nexus", "iosxr", "arista", "aruba", "b4com", "h3c", "optixtrans", "pc"]
 
